@@ -35,7 +35,7 @@ def cfg(**k):
     return CFG % d
 
 
-ACTIONS = ["SetTable", "CallStart", "Route", "NotFound", "Dial", "Reuse", "MsgToBackend", "EofToBackend",
+ACTIONS = ["SetTableAny", "CallStartAny", "Route", "NotFound", "Dial", "Reuse", "MsgToBackend", "EofToBackend",
            "MsgToCaller", "Finish", "Return", "CleanupTick", "Drop"]
 
 
